@@ -620,7 +620,7 @@ theorem C09_http_fixed (vs : Variants) (h1 : vs.handlerStatus = .fixed) (h2 : vs
   generalize effectiveRoute vs typ fb rom healthy listers = R at hs c5 hc
   obtain ⟨eps, ⟨ds, da, dr, dst⟩, err⟩ := R
   simp only [Obs.ofRouted] at hs c5
-  unfold httpViolation
+  unfold httpViolation httpViolation2
   rw [served_eq_routable]
   cases hs with
   | routed s r hne =>
